@@ -78,3 +78,8 @@ func init() {
 		}
 	})
 }
+
+func init() {
+	witness(Witness{Prop: "C44", Name: "networks-assigned-before-decode-only", File: "config/config.go",
+		Old: "\tif flagSet != nil {\n\t\tc.Ethereum.Network = clientNetwork.Ethereum()\n\t\tc.Bitcoin.Network = clientNetwork.Bitcoin()\n\t}\n", New: "", Rule: "C44.networks-after-decode"})
+}
